@@ -444,6 +444,35 @@ def completion_profile():
                    late_binding=False, history_weight=1, deep_initial_weight=12, send=False, faults=False)
 
 
+@st.composite
+def parallel_region_charts(draw, datamodel='null'):
+    """a parallel state with 2-4 compound regions (two children each) next to an outside state; every region state gets 0-2
+    transitions on a / b / both, targetless, to its sibling, to the outside state or into another region: pre-emption between
+    orthogonal regions, transitions leaving the parallel state and the engines' lazily built conflict caches are exercised"""
+    nreg = draw(st.integers(2, 4))
+    regions, leaves = [], []
+    for r in range(nreg):
+        kids = [State('state', id="r%d%s" % (r, c)) for c in "ab"]
+        regions.append(State('state', id="r%d" % r, children=kids))
+        leaves += kids
+    par = State('parallel', id="p", children=regions)
+    out = State('state', id="out", transitions=[Trans(events=[draw(st.sampled_from(['a', 'b', 'back']))], targets=["p"])])
+    ids = [l.id for l in leaves]
+    for holder in leaves + regions + [par]:
+        for _ in range(draw(st.sampled_from([0, 1, 1, 2]) if holder in leaves else st.sampled_from([0, 0, 1]))):
+            t = Trans(events=list(draw(st.sampled_from([['a'], ['b'], ['a', 'b'], ['*'], ['a'], ['b']]))))
+            k = draw(st.sampled_from(['none', 'none', 'sibling', 'out', 'other', 'sibling']))
+            if k == 'sibling' and holder in leaves:
+                t.targets = [holder.id[:-1] + ('b' if holder.id.endswith('a') else 'a')]
+            elif k == 'out':
+                t.targets = ["out"]
+            elif k == 'other':
+                t.targets = [draw(st.sampled_from(ids))]
+            holder.transitions.append(t)
+    root = State('scxml', children=[par, out] if draw(st.booleans()) else [out, par])
+    return Chart(root, datamodel, 'early', [])
+
+
 def history_profile():
     """charts that concentrate on history semantics: many history states and transitions into them, two event names,
     no executable content; meant to be combined with event_histories(12, ['a', 'b'])"""
